@@ -51,22 +51,22 @@ JOBS += [
 
 # 6. bounded cross-check without any contract or lemma: real carquet_crc32 / carquet_crc32_update on a
 # buffer of concrete length and alignment offset, all data == explicit bit-serial loop; ghost wiring too
-RP = dict(kind='direct', harness='replay/direct/crc32_vs_zlib.c', sources=[],
-          vars={'len': 'len', 'off': 'off', 'crc0': 'crc0'})
-QUICK_B = {(0, 0), (1, 7), (3, 2), (7, 0), (7, 5)}
-HARD = 'lengths >= 8 contain the 8-byte block identity (2^96), which no back end closes without the lemma chain; not run to completion (>250 s for len 9)'
-for n in list(range(0, 8)) + [8, 9, 16]:
-    for off in (range(0, 8) if n < 8 else [0]):
+# (replay/direct/crc32_vs_zlib.c is a manual tool: len/off/crc0/split/b<i> from a file; the driver uses
+#  replay/direct/crc32_selftest.c because CQV_LEN/CQV_OFF are constants and do not appear in the trace)
+QUICK_B = {(0, 0), (1, 7)}
+HARD = 'undecided: chained table steps without the lemma chain do not close (len 3: z3 and SAT time out at 200 s and SAT at 600 s; len 9 contains the 2^96 block identity, SAT >250 s)'
+for n in [0, 1, 2, 3, 9]:
+    for off in (range(0, 8) if n < 2 else [0]):
         JOBS.append(dict(name='c14_crc32_bounded_len%02d_off%d' % (n, off), entry='h_bounded', loop_contracts=False,
                          unwind=257, level='bounded', bound='length == %d bytes at offset %d of the buffer (all data, all start values)' % (n, off),
                          tier='quick' if (n, off) in QUICK_B else 'thorough',
                          functions=['carquet_crc32', 'carquet_crc32_update', 'crc32_slicing_by_8', 'crc32_init_tables'],
-                         est_s=60, timeout=600, note=(HARD if n >= 8 else ''),
-                         **dict(B, replayer=RP, defines=B['defines'] + ['CQV_LEN=%d' % n, 'CQV_OFF=%d' % off])))
+                         est_s=60, timeout=400, note=(HARD if n >= 2 else ''),
+                         **dict(B, defines=B['defines'] + ['CQV_LEN=%d' % n, 'CQV_OFF=%d' % off])))
 # 5b. composition law, bounded: total length n, every split point, all data
-for n in (0, 1, 4, 7):
+for n in (0, 1):
     JOBS.append(dict(name='c14_crc32_compose_len%02d' % n, entry='h_compose_bounded', loop_contracts=False,
                      unwind=257, level='bounded', bound='total length == %d bytes, every split point (all data, all start values)' % n,
-                     tier='quick' if n in (4,) else 'thorough', 
+                     tier='thorough', 
                      functions=['carquet_crc32', 'carquet_crc32_update'],
-                     est_s=120, timeout=600, **dict(B, replayer=dict(RP, vars=dict(RP['vars'], split='split')), defines=B['defines'] + ['CQV_LEN=%d' % n, 'CQV_OFF=3'])))
+                     est_s=120, timeout=400, note='undecided: SAT and z3 time out at 200 s already for total length 1 (three dependent calls with a symbolic split)', **dict(B,  defines=B['defines'] + ['CQV_LEN=%d' % n, 'CQV_OFF=3'])))
